@@ -467,3 +467,22 @@ Proof.
   destruct (filter usable (candidates None keep addrs)) as [|x l] eqn:E; [contradiction|].
   apply in_map. exact Hc.
 Qed.
+
+(** * Known class F17: witnesses *)
+Lemma batch_refuted :
+  (exists cfg st g b, parser_on cfg st = true /\ s_splitting cfg = true /\ known_c05 b = true /\
+     batch_has_write g b = true /\ active_role (client_route cfg st (IBatch b)) <> Some Primary) /\
+  (* Parse(INSERT) Bind Execute Parse(SELECT) Bind Execute Sync *)
+  active_role (client_route (cfg_split false) st_primary
+      (IBatch [BParse 1 (PAcc quiet [SOther]); BBind 1; BOther;
+               BParse 2 (PAcc quiet [SQuery sel]); BBind 2; BOther])) = Some Replica /\
+  (* earlier: Parse s7 (INSERT) ... ; now, after a plain SELECT: Bind s7, Execute, Sync *)
+  batch_has_write [(7, Some [SOther])] [BBind 7; BOther] = true /\
+  active_role (client_route (cfg_split false) st_replica (IBatch [BBind 7; BOther])) = Some Replica.
+Proof.
+  split; [|vm_compute; repeat split].
+  exists (cfg_split false), st_primary, [],
+    [BParse 1 (PAcc quiet [SOther]); BBind 1; BOther; BParse 2 (PAcc quiet [SQuery sel]); BBind 2; BOther].
+  vm_compute. repeat split; discriminate.
+Qed.
+
